@@ -464,7 +464,7 @@ prop("C13",
      driver=lambda tier, seed, gen, out: ["codec", "-mode", "partial", "-out", out, "-seed", str(seed), "-n",
                                           _t(tier, "1500", "150000")],
      required=["full:accept", "full:reject", "part:accept", "part:reject", "shape:absent", "shape:nodata", "shape:null",
-               "shape:ident", "shape:list", "shape:badshape", "impl:soft", "impl:wrap", "unknownrel:nodata", "unknownrel:ident", "trailing", "unknown-type-bare", "shape:listbadtail", "shape:badlinks-or-meta", "selfpair:accept", "ptype:accept", "ptype:reject"],
+               "shape:ident", "shape:list", "shape:badshape", "impl:soft", "impl:wrap", "unknownrel:nodata", "unknownrel:ident", "trailing", "unknown-type-bare", "shape:listbadtail", "shape:listbadnoid", "numeric-id", "shape:badlinks-or-meta", "selfpair:accept", "ptype:accept", "ptype:reject"],
      level_text="PartialOK: accepted iff full unmarshaling accepts; the result's type has the schema type's name, "
                 "exactly the attributes present in the payload and exactly the relationships whose object carries a "
                 "data member (explicit null included), each with the schema's definition and the value full "
